@@ -437,6 +437,7 @@ func translateFunc(p *parsed, fd *ast.FuncDecl, coqName string, allow map[string
 		for _, f := range fd.Type.Results.List {
 			for _, n := range f.Names {
 				named = append(named, n.Name)
+				c.locals[n.Name] = "0" // named integer results start at their zero value
 			}
 		}
 	}
